@@ -92,7 +92,10 @@ def py_const(node):
     if k == "npfloat":
         return np.float64(c)
     tag = node[3] if len(node) > 3 else "None"
-    return {"None": None, "str": "a", "complex": 1j}[tag]
+    import fractions
+    return {"None": None, "str": "a", "complex": 1j,
+            # real scalars that are NOT float/int instances: refused by the constructors exactly like other non-numeric operands
+            "npint64": np.int64(3), "npint32": np.int32(-2), "npfloat32": np.float32(2.5), "fraction": fractions.Fraction(3, 2)}[tag]
 
 
 def py_build(node, leaves):
@@ -315,6 +318,9 @@ def inject_fault(rng, tree, nleaves):
             return set_at(tree, p, ["mul", sub, ["leaf", rng.randrange(nleaves)]] if rng.random() < 0.5
                           else ["mul", ["leaf", rng.randrange(nleaves)], sub])
         if kind == "bad_sibling" and classify(sub) == ("obs", None):
+            if rng.random() < 0.4:  # non-(float|int) real scalars, only as the RIGHT operand (left position is numpy's dispatch)
+                bad = ["const", "bad", 0, rng.choice(["npint64", "npint32", "npfloat32", "fraction"])]
+                return set_at(tree, p, [rng.choice(OPS2), sub, bad])
             bad = ["const", "bad", 0, rng.choice(["None", "str", "complex"])]
             op = rng.choice(OPS2)
             return set_at(tree, p, [op, sub, bad] if rng.random() < 0.5 else [op, bad, sub])
